@@ -8,6 +8,7 @@ import (
 	"fmt"
 	"os"
 	"path/filepath"
+	"runtime/debug"
 	"sort"
 	"strconv"
 	"strings"
@@ -76,6 +77,7 @@ func New(id string) *Check {
 	only := flag.String("only", "", "restrict to sub-check")
 	budget := flag.Duration("budget", 0, "internal deadline (0 = tier default)")
 	flag.Parse()
+	debug.SetGCPercent(400)
 	if *tier != "thorough" {
 		*tier = "quick"
 	}
@@ -180,7 +182,7 @@ func (c *Check) Violation(key string, detail any) {
 			return
 		}
 	}
-	if len(c.violations) >= 50 {
+	if len(c.violations) >= maxViol() {
 		return
 	}
 	os.MkdirAll(filepath.Join(Root, "replays"), 0o755)
@@ -340,4 +342,13 @@ func Recover(f func()) (panicked string) {
 	}()
 	f()
 	return ""
+}
+
+func maxViol() int {
+	if s := os.Getenv("VERIF_MAXVIOL"); s != "" {
+		if n, err := strconv.Atoi(s); err == nil {
+			return n
+		}
+	}
+	return 50
 }
